@@ -231,6 +231,44 @@ func C11(tier common.Tier) int {
 			}
 		})
 	}
+	// test variants: several type-checked instances of one import path in one run; every annotation is
+	// correct, so every cell must be silent (and therefore equal to every other cell)
+	{
+		tv := e4.TestVariants()
+		dir := root + "/tv"
+		drv.WriteModule(dir, tv)
+		type cell struct {
+			k     drv.Driver
+			flags []string
+			pats  []string
+		}
+		var cells []cell
+		reps := 2
+		if thorough {
+			reps = 6
+		}
+		for rep := 0; rep < reps; rep++ {
+			for _, ps := range [][]string{{"./..."}, {"./a"}, {"./b"}, {"./a", "./b"}, {"./b", "./a"}} {
+				for _, scan := range []string{"-config.scan-tests=false", "-config.scan-tests=true"} {
+					cells = append(cells, cell{drv.Standalone, []string{scan}, ps}, cell{drv.Standalone, []string{scan, "-debug=p"}, ps}, cell{drv.Vet, []string{scan}, ps})
+				}
+			}
+		}
+		drv.ParallelDo(len(cells), common.NumWorkers(), func(i int) {
+			c := cells[i]
+			o := drv.Run(drv.Req{Driver: c.k, Dir: dir, Flags: c.flags, Patterns: c.pats})
+			run.State(1, "", fmt.Sprintf("testvariants|%d", i))
+			if cr := o.Crashed(); cr != "" {
+				run.Report(common.Cex{Sig: "crash|testvariants", Summary: cr})
+			}
+			if len(o.Diags) > 0 {
+				run.Report(common.Cex{Sig: fmt.Sprintf("testvariants|driver=%s|flags=%s|code=%s", c.k, strings.Join(c.flags, ","), o.Diags[0].Code),
+					Summary: fmt.Sprintf("%s %v on %v reports %d diagnostics on a module whose annotations are all correct (other cells report none): first %s at %s:%d",
+						c.k, c.flags, c.pats, len(o.Diags), o.Diags[0].Code, o.Diags[0].File, o.Diags[0].Line),
+					Detail: map[string]any{"cmd": o.Cmd, "message": o.Diags[0].Message}})
+			}
+		})
+	}
 	// race complement
 	drv.RaceBinary()
 	races, raceRuns := 0, 6
